@@ -392,6 +392,8 @@ def check_reply_fields(r, rs, req_head, req_ver, code, icy, closes):
     got = [(n, v) for n, v in r["fields"] if n.lower() not in MANAGED]
     if got != want:
         return "user headers on the wire %r differ from what was added %r" % (got[:6], want[:6])
+    if rs.upgrade and code == 101 and r["close"]:
+        return "the 101 reply of an upgrade response carries 'Connection: close'"
     if closes is not None and not rs.upgrade and closes != r["close"]:
         return "daemon %s after the reply but 'Connection: close' is %s" % (
             "closes" if closes else "keeps the connection", "present" if r["close"] else "absent")
@@ -529,10 +531,10 @@ def judge_decision(c, out):
         for i, ch in enumerate(out):
             fl, fa = i // 32, i % 32
             res = int(ch) - 1
-            if ka == -1:
+            if upg:
+                want = 2        # an upgrade response always hands the connection over
+            elif ka == -1:
                 want = -1
-            elif upg:
-                want = 2
             elif rc or dr or (fl & 1) or (fa & 2) or ver not in (2, 3, 4) or (ct & 1):
                 want = -1
             elif ver == 2 or (fl & 2):
@@ -674,6 +676,9 @@ def gen_sequences(tier, rng):
             for kind in ks:
                 lines = [new_line(0, kind)] + [call_line(0, c) for c in combo]
                 probes = HDR_PROBES if L <= 2 else HDR_PROBES[:1]
+                if kind[0] == "upg" and L <= 2:
+                    # the 101 reply on a connection that is already MUST_CLOSE (request with ambiguous framing)
+                    probes = probes + [(-1, 0, 0, 3, 0, 1, 101, 0, 0, 0), (-1, 0, 1, 3, 1, 1, 101, 0, 0, 0)]
                 for p in probes:
                     lines.append("hdr 0 %d %d %d %d %d %d %d %d %d %d 4096" % p)
                 lines.append("foot? 0 4096")
@@ -1027,7 +1032,7 @@ class Spec:
                          "Mhd.C04.one_body_delimitation", "Mhd.C04.no_body_when_forbidden",
                          "Mhd.C04.user_headers_verbatim", "Mhd.C04.close_announced", "Mhd.C04.close_announced_iff",
                          "Mhd.C04.continue_only_when_asked", "Mhd.C04.error_reply_framed_and_closes",
-                         "Mhd.C04.iovec_body_is_concatenation"]
+                         "Mhd.C04.iovec_body_is_concatenation", "Mhd.C04.upgrade_reply_no_close"]
     trusted_base = ["Lean 4 kernel", "axioms: propext, Classical.choice, Quot.sound at most (audited per theorem)",
                     "hand-written model lean/Mhd/Model/{ReplyStr,Resp,Reply,ReplyWire}.lean tied to response.c / connection.c by this run's correspondence",
                     "the response grammar lean/Mhd/Proofs/ReplyGrammar.lean (WellFramed, parseReply) and its independent Python twin parse_reply in tools/props/C04.py",
